@@ -30,7 +30,7 @@ def parse_fam(s):
 
 
 def parse_segs(segs):
-    """-> list of ('T', text) | (kind, l, r) | ('R', l, ri, l2, r2, content)"""
+    """-> list of ('T', text) | ('V'|'B'|'C', l, r, interior) | ('R', l, ri, l2, r2, content, tight)"""
     out = []
     if segs == ".":
         return out
@@ -39,13 +39,18 @@ def parse_segs(segs):
         k = it[0]
         if k == "T":
             out.append(("T", unhex(it[1:])))
-        elif k == "B":
-            out.append(("B", it[1], it[2], "if t" if nb % 2 == 0 else "endif"))
+        elif k in "Bb":
+            w = "if t" if nb % 2 == 0 else "endif"
+            out.append(("B", it[1], it[2], " " + w + " " if k == "B" else w))
             nb += 1
-        elif k in "VC":
-            out.append((k, it[1], it[2]))
-        elif k == "R":
-            out.append(("R", it[1], it[2], it[3], it[4], unhex(it[5:])))
+        elif k in "Vv":
+            out.append(("V", it[1], it[2], " v " if k == "V" else "v"))
+        elif k == "C":
+            out.append(("C", it[1], it[2], " c "))
+        elif k == "K":
+            out.append(("C", it[1], it[2], unhex(it[3:])))
+        elif k in "Rr":
+            out.append(("R", it[1], it[2], it[3], it[4], unhex(it[5:]), k == "r"))
         else:
             raise ValueError(it)
     return out
@@ -54,16 +59,32 @@ def parse_segs(segs):
 def tag_src(d, it):
     k = it[0]
     if k == "V":
-        return d["vs"] + MK[it[1]] + " v " + MK[it[2]] + d["ve"]
+        return d["vs"] + MK[it[1]] + it[3] + MK[it[2]] + d["ve"]
     if k == "B":
-        return d["bs"] + MK[it[1]] + " " + it[3] + " " + MK[it[2]] + d["be"]
+        return d["bs"] + MK[it[1]] + it[3] + MK[it[2]] + d["be"]
     if k == "C":
-        return d["cs"] + MK[it[1]] + " c " + MK[it[2]] + d["ce"]
-    return (d["bs"] + MK[it[1]] + " raw " + MK[it[2]] + d["be"] + it[5] + d["bs"] + MK[it[3]] + " endraw " + MK[it[4]] + d["be"])
+        return d["cs"] + MK[it[1]] + it[3] + MK[it[2]] + d["ce"]
+    p = "" if it[6] else " "
+    return (d["bs"] + MK[it[1]] + p + "raw" + p + MK[it[2]] + d["be"] + it[5] + d["bs"] + MK[it[3]] + p + "endraw" + p + MK[it[4]] + d["be"])
 
 
 def own_start(d, it):
     return {"V": d["vs"], "B": d["bs"], "C": d["cs"], "R": d["bs"]}[it[0]]
+
+
+def comment_reads_back(d, it):
+    """a comment tag is the one its source spells: the body does not contain the comment end, a
+    body character next to an unmarked side is not `-`/`+`, and `{#-#}` is the comment with a LEFT
+    marker (so "empty body, right marker only" is not a writing of its own)"""
+    l, r, body = it[1], it[2], it[3]
+    br = body + MK[r]
+    if (br + d["ce"]).find(d["ce"]) != len(br):
+        return False
+    if l == "_" and br[:1] in ("-", "+"):
+        return False
+    if r == "_" and body[-1:] in ("-", "+"):
+        return False
+    return True
 
 
 def alternate(items):
@@ -174,6 +195,8 @@ def py_free(d, items):
         tags.append((len(src), own_start(d, it)))
         src += tag_src(d, it)
         rs = len(src)
+        if it[0] == "C" and not comment_reads_back(d, it):
+            return False
         if it[0] == "R":
             c, bs = it[5], d["bs"]
             if "endraw" in c:
@@ -222,7 +245,8 @@ def fields_of(parts):
 
 
 def seg_site(fam, items, tlk):
-    sig = "".join((it[0] + (it[1] + it[2] if it[0] != "R" else it[1] + it[2] + it[3] + it[4])) if it[0] != "T" else "t" for it in items)
+    sig = "".join((it[0] + (it[1] + it[2] + ("" if it[0] == "R" or it[3] in (" v ", " if t ", " endif ", " c ") else "[" + it[3] + "]")
+                            if it[0] != "R" else it[1] + it[2] + it[3] + it[4] + ("tight" if it[6] else ""))) if it[0] != "T" else "t" for it in items)
     return f"seg/{fam}/{sig}/trim={tlk[0]},lstrip={tlk[1]},keep={tlk[2]}"
 
 
